@@ -946,6 +946,17 @@ func (s *Sess) prepopulate(n int) {
 			s.exec(&Op{K: OpCreate, H: lr.FH, Name: fmt.Sprintf("%03d", i) + longName(s.m.Lim.NameMax-3, 'N')})
 		}
 	}
+	// after a restart (name caches rebuilt from disk): every long name must
+	// still be known - creating it again must be refused
+	if lr := s.m.lookupIn(s.m.Objs[s.m.Root], "longs"); lr != nil && lr.FH != nil {
+		s.restart()
+		for i := 34; i < 40; i++ {
+			s.exec(&Op{K: []OpKind{OpCreate, OpMkdir, OpSymlink}[i%3], H: lr.FH, Name: fmt.Sprintf("%03d", i) + longName(s.m.Lim.NameMax-3, 'N'), Target: "t"})
+		}
+		if s.p.FsckEvery > 0 {
+			s.fsck("fsck", "after re-creating existing long names following a restart")
+		}
+	}
 	// punch free slots into the big directory
 	for i := 0; i < n; i += 15 {
 		s.exec(&Op{K: OpRemove, H: bigfh, Name: fmt.Sprintf("o%03d", i)})
